@@ -98,9 +98,15 @@ def coq_zlist(e) -> str:
     return "([" + "; ".join(f"({x[1]})%Z" for x in e[1]) + "] : list Z)"
 
 
-GK = {"none": "GraftNone", "sgd": "GraftSGD", "adagrad": "GraftAdaGrad", "rmsprop": "GraftRMSprop", "adam": "GraftAdam", "unsupported": "GraftUnsupported"}
-PK = {"shampoo": "PCShampoo", "eigcorr": "PCEigenvalueCorrected", "unsupported": "PCUnsupported"}
-DK = {"none": "DistNone", "unsupported": "DistUnsupported",
+# "sub_X" = an instance of a user-defined subclass of the library class X (inherits fields and __post_init__; the model
+# carries the class in gkind / pc_kind and the fact in the flag gsub / pc_sub); "unsupported" = a direct subclass of the abstract base.
+GK = {"none": "GraftNone", "sgd": "GraftSGD", "adagrad": "GraftAdaGrad", "rmsprop": "GraftRMSprop", "adam": "GraftAdam", "unsupported": "GraftUnsupported",
+      "sub_sgd": "GraftSGD", "sub_adagrad": "GraftAdaGrad", "sub_rmsprop": "GraftRMSprop", "sub_adam": "GraftAdam"}
+PK = {"shampoo": "PCShampoo", "eigcorr": "PCEigenvalueCorrected", "unsupported": "PCUnsupported", "sub_shampoo": "PCShampoo", "sub_eigcorr": "PCEigenvalueCorrected"}
+GBASE = {k: k[4:] if k.startswith("sub_") else k for k in GK}      # the library class whose fields the object has
+PBASE = {k: k[4:] if k.startswith("sub_") else k for k in PK}
+UNSUPPORTED_DIST = ("unsupported", "sub_ddp", "sub_fsdp", "sub_fullyshard", "sub_hsdp", "sub_hybrid")
+DK = {"none": "DistNone", **{k: "DistUnsupported" for k in UNSUPPORTED_DIST},
       "ddp": "DistNone"}      # a real DDPShampooConfig on a 1-process gloo group: a supported type, same model value as None
 
 # Harness-only axis: HOW the same hyperparameter values reach the constructor and WHICH arguments the code does not
@@ -112,6 +118,8 @@ VARIANTS = [
     # the parameters the optimizer is built for
     "param_0d", "param_1d", "param_3d", "param_two", "param_f64", "param_bf16", "param_f16", "param_empty", "param_nograd", "param_1x1",
     # config objects
+    "amort_sub",        # a user-defined subclass of EigenConfig / QRConfig as amortized_computation_config: the constructor does not
+                        # dispatch on it (matrix_functions.py does, by exact type, at the first root/eigenvector computation)
     "amort_alt",        # other amortized_computation_config (CoupledNewton for Shampoo, Eigh for eigenvalue-corrected)
     "pc_singleton",     # the module-level DefaultShampooConfig / DefaultEigenvalueCorrectedShampooConfig object (when nt = 3, ignored = [])
     "betas_list",       # betas given as a list
@@ -236,8 +244,19 @@ def _impl():
 
         logging.disable(logging.CRITICAL)
 
+        from dataclasses import field
+
+        # user-defined config types: direct subclasses of the abstract bases and subclasses of every library class
         @dataclass(kw_only=True)
-        class OtherPreconditionerConfig(st.ShampooPreconditionerConfig):   # a PreconditionerConfig the dispatch does not know
+        class OtherPreconditionerConfig(st.PreconditionerConfig):
+            amortized_computation_config: mft.RootInvConfig = field(default_factory=lambda: mft.DefaultEigenConfig)
+
+        @dataclass(kw_only=True)
+        class SubShampooPC(st.ShampooPreconditionerConfig):
+            pass
+
+        @dataclass(kw_only=True)
+        class SubEigCorrPC(st.EigenvalueCorrectedShampooPreconditionerConfig):
             pass
 
         @dataclass
@@ -245,10 +264,61 @@ def _impl():
             pass
 
         @dataclass
+        class SubSGD(st.SGDGraftingConfig):
+            pass
+
+        @dataclass(kw_only=True)
+        class SubAdaGrad(st.AdaGradGraftingConfig):
+            pass
+
+        @dataclass(kw_only=True)
+        class SubRMSprop(st.RMSpropGraftingConfig):
+            pass
+
+        @dataclass(kw_only=True)
+        class SubAdam(st.AdamGraftingConfig):
+            pass
+
+        @dataclass
         class OtherDistributedConfig(st.DistributedConfig):
             pass
 
-        _IMPL.update(torch=torch, ds=ds, st=st, QRConfig=QRConfig, mft=mft, OtherPC=OtherPreconditionerConfig, OtherG=OtherGraftingConfig, OtherD=OtherDistributedConfig)
+        @dataclass(kw_only=True)
+        class SubDDP(st.DDPShampooConfig):
+            pass
+
+        @dataclass(kw_only=True)
+        class SubFSDP(st.FSDPShampooConfig):
+            pass
+
+        @dataclass(kw_only=True)
+        class SubFullyShard(st.FullyShardShampooConfig):
+            pass
+
+        @dataclass
+        class SubHSDP(st.HSDPShampooConfig):
+            pass
+
+        @dataclass
+        class SubHybrid(st.HybridShardShampooConfig):
+            pass
+
+        @dataclass(kw_only=True)
+        class SubEigenConfig(mft.EigenConfig):
+            pass
+
+        @dataclass(kw_only=True)
+        class SubQRConfig(mft.QRConfig):
+            pass
+
+        dist_makers = {"unsupported": OtherDistributedConfig, "sub_ddp": SubDDP, "sub_fsdp": lambda: SubFSDP(param_to_metadata={}),
+                       "sub_fullyshard": SubFullyShard, "sub_hsdp": lambda: SubHSDP(param_to_metadata={}, device_mesh=None),
+                       "sub_hybrid": lambda: SubHybrid(device_mesh=None)}
+        _IMPL.update(torch=torch, ds=ds, st=st, QRConfig=QRConfig, mft=mft, OtherPC=OtherPreconditionerConfig, OtherG=OtherGraftingConfig, dist_makers=dist_makers,
+                     graft_cls={"sgd": st.SGDGraftingConfig, "adagrad": st.AdaGradGraftingConfig, "rmsprop": st.RMSpropGraftingConfig, "adam": st.AdamGraftingConfig,
+                                "sub_sgd": SubSGD, "sub_adagrad": SubAdaGrad, "sub_rmsprop": SubRMSprop, "sub_adam": SubAdam},
+                     pc_cls={"shampoo": st.ShampooPreconditionerConfig, "eigcorr": st.EigenvalueCorrectedShampooPreconditionerConfig,
+                             "sub_shampoo": SubShampooPC, "sub_eigcorr": SubEigCorrPC}, SubEigenConfig=SubEigenConfig, SubQRConfig=SubQRConfig)
     return _IMPL
 
 
@@ -296,27 +366,22 @@ def run_one(key: tuple):
     omit = v == "omit_defaults"
     phase = "graft"
     try:
-        gk = c["gkind"]
+        gk, gb = c["gkind"], GBASE[c["gkind"]]
         gkw = {}
-        if gk in DOC_GRAFT_DEFAULTS:
-            if not (omit and _is(c, "geps", DOC_GRAFT_DEFAULTS[gk]["geps"])):
+        if gb in DOC_GRAFT_DEFAULTS:
+            if not (omit and _is(c, "geps", DOC_GRAFT_DEFAULTS[gb]["geps"])):
                 gkw["epsilon"] = c["geps"]
-            if gk != "adagrad" and not (omit and _is(c, "gb2", DOC_GRAFT_DEFAULTS[gk]["gb2"])):
+            if gb != "adagrad" and not (omit and _is(c, "gb2", DOC_GRAFT_DEFAULTS[gb]["gb2"])):
                 gkw["beta2"] = c["gb2"]
         if gk == "none":
             graft = None
-        elif gk == "sgd":
-            graft = st.SGDGraftingConfig()
-        elif gk == "adagrad":
-            graft = st.AdaGradGraftingConfig(**gkw)
-        elif gk == "rmsprop":
-            graft = st.RMSpropGraftingConfig(**gkw)
-        elif gk == "adam":
-            graft = st.AdamGraftingConfig(**gkw)
-        else:
+        elif gk == "unsupported":
             graft = m["OtherG"]()
+        else:
+            graft = m["graft_cls"][gk](**gkw)
         phase = "pc"
-        pk = c["pc_kind"]
+        pk, pb = c["pc_kind"], PBASE[c["pc_kind"]]
+        PCls = m["pc_cls"].get(pk)
         pc_is_default = _is(c, "nt", 3) and _is(c, "ignored", [])
         kw = {}
         if not (omit and _is(c, "nt", 3)):
@@ -324,21 +389,25 @@ def run_one(key: tuple):
         if not (omit and _is(c, "ignored", [])):
             kw["ignored_dims"] = list(c["ignored"])
         omit_pc = False
-        if pk == "shampoo":
-            if v == "pc_singleton" and pc_is_default:
+        if pb == "shampoo":
+            if v == "pc_singleton" and pc_is_default and pk == "shampoo":
                 pc = st.DefaultShampooConfig
             elif v == "amort_alt":
-                pc = st.ShampooPreconditionerConfig(amortized_computation_config=m["mft"].CoupledNewtonConfig(), **kw)
+                pc = PCls(amortized_computation_config=m["mft"].CoupledNewtonConfig(), **kw)
+            elif v == "amort_sub":
+                pc = PCls(amortized_computation_config=m["SubEigenConfig"](), **kw)
             else:
-                pc = st.ShampooPreconditionerConfig(**kw)
-                omit_pc = omit and pc_is_default
-        elif pk == "eigcorr":
-            if v == "pc_singleton" and pc_is_default:
+                pc = PCls(**kw)
+                omit_pc = omit and pc_is_default and pk == "shampoo"
+        elif pb == "eigcorr":
+            if v == "pc_singleton" and pc_is_default and pk == "eigcorr":
                 pc = st.DefaultSOAPConfig
             elif v == "amort_alt":
-                pc = st.EigenvalueCorrectedShampooPreconditionerConfig(**kw)     # default: EighEigenvectorConfig
+                pc = PCls(**kw)     # default: EighEigenvectorConfig
+            elif v == "amort_sub":
+                pc = PCls(amortized_computation_config=m["SubQRConfig"](), **kw)
             else:
-                pc = st.EigenvalueCorrectedShampooPreconditionerConfig(amortized_computation_config=m["QRConfig"](), **kw)
+                pc = PCls(amortized_computation_config=m["QRConfig"](), **kw)
         else:
             pc = m["OtherPC"](**kw)
         phase = "init"
@@ -347,7 +416,7 @@ def run_one(key: tuple):
         elif c["dist"] == "ddp":
             dcfg = st.DDPShampooConfig()
         else:
-            dcfg = m["OtherD"]()
+            dcfg = m["dist_makers"][c["dist"]]()
         betas = [c["beta1"], c["beta2"]] if v == "betas_list" else (c["beta1"], c["beta2"])
         args = dict(betas=betas, grafting_config=graft, distributed_config=dcfg, preconditioner_config=pc)
         for a, name in KWNAME.items():
@@ -426,6 +495,11 @@ def coq_obs(res) -> str:
     return {"ValueError": "ObsValueError", "NotImplementedError": "ObsNotImplemented", "Other": "ObsOther"}[cls]
 
 
+def _sub_flags(key: tuple) -> list[str]:
+    gk, pk = key[AXES.index("gkind")][1], key[AXES.index("pc_kind")][1]
+    return ["true" if gk.startswith("sub_") else "false", "true" if pk.startswith("sub_") else "false"]
+
+
 def coq_raw(key: tuple) -> str:
     parts = []
     for a, e in zip(AXES, key):
@@ -441,6 +515,7 @@ def coq_raw(key: tuple) -> str:
             parts.append(PK[e[1]])
         elif a == "dist":
             parts.append(DK[e[1]])
+    parts += _sub_flags(key)
     return "(mk_raw " + " ".join(parts) + ")"      # "variant" is not a field of the model
 
 
@@ -465,6 +540,7 @@ def case_file(chunk) -> str:
                 parts.append(share(coq_zlist(e)))
             elif a != "variant":     # not a field of the model
                 parts.append({"gkind": GK, "pc_kind": PK, "dist": DK}[a][e[1]])
+        parts += _sub_flags(key)
         obs = f"(ObsOK {share(coq_num(res[1]))} {share(coq_num(res[2]))})" if res[0] == "OK" else coq_obs(res)
         lab = f"(Some {res[3]})" if res[0] == "ValueError" and res[3] else "None"
         items.append("(mk_raw " + " ".join(parts) + f", {obs}, {lab})")
@@ -507,6 +583,10 @@ def unjson_case(lst) -> tuple:
         return (e[0], tuple(u(x) for x in e[1])) if e[0] in ("list", "tuple", "range") else (e[0], e[1])
     d = {a: u(e) for a, e in lst}
     return tuple(d[a] for a in AXES)
+
+
+def _nunsup(c) -> int:
+    return sum((c["gkind"] == "unsupported" or c["gkind"].startswith("sub_"), c["pc_kind"] == "unsupported" or c["pc_kind"].startswith("sub_"), c["dist"] in UNSUPPORTED_DIST))
 
 
 def run(ck: Check) -> None:
@@ -701,21 +781,32 @@ def run(ck: Check) -> None:
         "ignored dims with a repeated entry": lambda c, i, r: len(set(c["ignored"])) != len(c["ignored"]),
         "ignored dims out of the parameter's order (5, -1)": lambda c, i, r: any(d in (5, -1) for d in c["ignored"]),
         "grafting None / SGD (no validated field)": lambda c, i, r: c["gkind"] in ("none", "sgd"),
-        "AdaGrad grafting with epsilon varied": lambda c, i, r: c["gkind"] == "adagrad" and not _is(c, "geps", 1e-10) and not _is(c, "geps", 1e-8),
-        "RMSprop grafting with epsilon or beta2 varied": lambda c, i, r: c["gkind"] == "rmsprop" and any(a in ("geps", "gb2") for a, _ in i["tags"]),
-        "Adam grafting with epsilon or beta2 varied": lambda c, i, r: c["gkind"] == "adam" and any(a in ("geps", "gb2") for a, _ in i["tags"]),
-        "RMSprop/Adam grafting with epsilon AND beta2 both out of range": lambda c, i, r: c["gkind"] in ("rmsprop", "adam") and not (c["geps"] > 0) and not (0 < c["gb2"] <= 1),
+        "AdaGrad grafting with epsilon varied": lambda c, i, r: GBASE[c["gkind"]] == "adagrad" and not _is(c, "geps", 1e-10) and not _is(c, "geps", 1e-8),
+        "RMSprop grafting with epsilon or beta2 varied": lambda c, i, r: GBASE[c["gkind"]] == "rmsprop" and any(a in ("geps", "gb2") for a, _ in i["tags"]),
+        "Adam grafting with epsilon or beta2 varied": lambda c, i, r: GBASE[c["gkind"]] == "adam" and any(a in ("geps", "gb2") for a, _ in i["tags"]),
+        "RMSprop/Adam grafting with epsilon AND beta2 both out of range": lambda c, i, r: GBASE[c["gkind"]] in ("rmsprop", "adam") and not (c["geps"] > 0) and not (0 < c["gb2"] <= 1),
         "Shampoo preconditioner config": lambda c, i, r: c["pc_kind"] == "shampoo",
         "eigenvalue-corrected (SOAP) preconditioner config": lambda c, i, r: c["pc_kind"] == "eigcorr",
+        **{f"unsupported type: user-defined subclass of {nm}": (lambda ax, kd: lambda c, i, r: c[ax] == kd)(ax, kd) for ax, kd, nm in (
+            ("gkind", "unsupported", "GraftingConfig (direct)"), ("gkind", "sub_sgd", "SGDGraftingConfig"), ("gkind", "sub_adagrad", "AdaGradGraftingConfig"),
+            ("gkind", "sub_rmsprop", "RMSpropGraftingConfig"), ("gkind", "sub_adam", "AdamGraftingConfig"),
+            ("pc_kind", "unsupported", "PreconditionerConfig (direct)"), ("pc_kind", "sub_shampoo", "ShampooPreconditionerConfig"),
+            ("pc_kind", "sub_eigcorr", "EigenvalueCorrectedShampooPreconditionerConfig"),
+            ("dist", "unsupported", "DistributedConfig (direct)"), ("dist", "sub_ddp", "DDPShampooConfig"), ("dist", "sub_fsdp", "FSDPShampooConfig"),
+            ("dist", "sub_fullyshard", "FullyShardShampooConfig"), ("dist", "sub_hsdp", "HSDPShampooConfig"), ("dist", "sub_hybrid", "HybridShardShampooConfig"))},
+        "unsupported grafting subclass with valid inherited fields (NotImplementedError expected)": lambda c, i, r: c["gkind"].startswith("sub_") and r[0] == "NotImplementedError",
+        "unsupported grafting subclass with an invalid inherited field (its __post_init__ raises ValueError first)": lambda c, i, r: c["gkind"].startswith("sub_") and r[0] == "ValueError" and r[3] in ("GGraftEps", "GGraftBeta2"),
+        "unsupported preconditioner subclass with valid inherited fields": lambda c, i, r: c["pc_kind"].startswith("sub_") and r[0] == "NotImplementedError",
+        "unsupported preconditioner subclass with an invalid inherited field": lambda c, i, r: c["pc_kind"].startswith("sub_") and r[0] == "ValueError" and r[3] in ("GNumTolerated", "GIgnoredUnique"),
         "num_tolerated_failed_amortized_computations at 0 / -1": lambda c, i, r: c["nt"] in (0, -1),
-        "unsupported grafting config type": lambda c, i, r: c["gkind"] == "unsupported",
-        "unsupported preconditioner config type": lambda c, i, r: c["pc_kind"] == "unsupported",
-        "unsupported distributed config type": lambda c, i, r: c["dist"] == "unsupported",
-        "unsupported type together with an out-of-range value (ValueError must win)": lambda c, i, r: "unsupported" in (c["gkind"], c["pc_kind"], c["dist"]) and r[0] == "ValueError",
-        "two unsupported types at once": lambda c, i, r: [c["gkind"], c["pc_kind"], c["dist"]].count("unsupported") >= 2,
+        "unsupported grafting config type": lambda c, i, r: c["gkind"] == "unsupported" or c["gkind"].startswith("sub_"),
+        "unsupported preconditioner config type": lambda c, i, r: c["pc_kind"] == "unsupported" or c["pc_kind"].startswith("sub_"),
+        "unsupported distributed config type": lambda c, i, r: c["dist"] in UNSUPPORTED_DIST,
+        "unsupported type together with an out-of-range value (ValueError must win)": lambda c, i, r: _nunsup(c) >= 1 and r[0] == "ValueError",
+        "two unsupported types at once": lambda c, i, r: _nunsup(c) >= 2,
         "supported distributed config: DDPShampooConfig on a 1-process gloo group": lambda c, i, r: c["dist"] == "ddp",
         "DDPShampooConfig with an out-of-range value": lambda c, i, r: c["dist"] == "ddp" and r[0] == "ValueError",
-        "pc_singleton variant actually using the module-level default object": lambda c, i, r: c["variant"] == "pc_singleton" and c["pc_kind"] != "unsupported" and _is(c, "nt", 3) and _is(c, "ignored", []),
+        "pc_singleton variant actually using the module-level default object": lambda c, i, r: c["variant"] == "pc_singleton" and c["pc_kind"] in ("shampoo", "eigcorr") and _is(c, "nt", 3) and _is(c, "ignored", []),
         "a harness-only variant together with an out-of-range value": lambda c, i, r: c["variant"] != "std" and r[0] == "ValueError",
         "a harness-only variant with an accepted configuration": lambda c, i, r: c["variant"] != "std" and r[0] == "OK",
     }
@@ -742,6 +833,15 @@ def run(ck: Check) -> None:
         "shampoo_pt2_compile_config other than None": "not validated by the constructor; compiled construction is C18's subject",
         "CUDA parameters / devices": "no GPU in the sandbox",
         "sequence inv_root_override with step != 1 ranges or user-defined Sequence classes": "list, tuple and range cover isinstance(..., Sequence)",
+    }
+
+    ck.coverage["type_dispatch"] = {
+        "grafting_config": "exact type (`type(cfg) is SGDGraftingConfig`, `type(cfg) in (AdaGrad, RMSprop, Adam)`): a user-defined subclass of any of the four classes, or of GraftingConfig, "
+                           "gives NotImplementedError (after its inherited __post_init__ accepted the fields); modelled by gkind + gsub",
+        "preconditioner_config": "exact type (`type(cfg) is ShampooPreconditionerConfig` / `is EigenvalueCorrectedShampooPreconditionerConfig`): subclasses give NotImplementedError; modelled by pc_kind + pc_sub",
+        "distributed_config": "exact type for all five library classes: a subclass of any of them (or of DistributedConfig) gives NotImplementedError before any process group is touched; modelled as DistUnsupported",
+        "amortized_computation_config": "NOT dispatched by the constructor: a user-defined subclass of EigenConfig / QRConfig is accepted at construction (variant amort_sub); "
+                                        "matrix_functions.py dispatches on it by exact type at the first root / eigenvector computation, which is outside the constructor",
     }
 
     # per-group overrides: what the constructor does with them (information for the coordinator; no verdict)
